@@ -15,7 +15,44 @@ import traceback
 from . import core
 
 
+class _FreshLine:
+    """stands in for sys.stderr during a check: remembers whether the last thing written ended a line.  The code
+    under test may write to stderr without a final newline (netqasm_backend/factory.py log_error writes
+    str(failure)); with stdout and stderr going to one file the verdict lines would then not start at the start of a
+    line and `grep ^VIOLATION` would miss them."""
+
+    def __init__(self, stream):
+        self._stream, self.open_line = stream, False
+
+    def write(self, text):
+        if text:
+            self.open_line = not text.endswith("\n")
+        return self._stream.write(text)
+
+    def __getattr__(self, name):
+        return getattr(self._stream, name)
+
+
+def fresh_line():
+    """make sure the next thing printed starts at the start of a line, on both streams"""
+    sys.stdout.flush()
+    err = sys.stderr
+    try:
+        tty = err.isatty()
+    except Exception:
+        tty = False
+    # (worker processes write to the same descriptor unseen by this object: when not on a terminal, always)
+    if getattr(err, "open_line", False) or not tty:
+        err.write("\n")
+    try:
+        err.flush()
+    except Exception:
+        pass
+
+
 def main(argv=None):
+    if not isinstance(sys.stderr, _FreshLine):
+        sys.stderr = _FreshLine(sys.stderr)
     ap = argparse.ArgumentParser()
     ap.add_argument("prop")
     ap.add_argument("--tier", default=os.environ.get("VERIF_TIER", "quick"), choices=["quick", "thorough"])
@@ -34,10 +71,12 @@ def main(argv=None):
     try:
         return run_check(ctx, mod, args)
     except core.MachineryError as e:
+        fresh_line()
         print("MACHINERY-ERROR property=%s %s" % (prop, e))
         return 2
     except Exception:
         traceback.print_exc()
+        fresh_line()
         print("MACHINERY-ERROR property=%s unexpected exception in the harness" % prop)
         return 2
 
@@ -133,6 +172,7 @@ def run_check(ctx, mod, args):
     if gen_info:
         coverage["generated"] = gen_info
     core.write_evidence(ctx, "proof", coverage, list(getattr(mod, "ASSUMPTIONS", [])), nviol)
+    fresh_line()
     for ln in lines:
         print(ln)
     print("%s %s tier=%s seed=%d theorems=%d/%d cases=%d distinct=%d traces=%d wall=%.1fs" % (
